@@ -240,21 +240,37 @@ def two_views(case, arrays_value, inv, labels, rng):
         out.append(("views", "summary-vs-histories", "summary() t=%r %r but node histories give t=%r %r"
                     % (st, {str(k): v for k, v in sd.items()}, rt, {str(k): v for k, v in rc.items()})))
         return out
-    # accessors
-    try:
-        if [float(x) for x in inv.t()] != st:
-            out.append(("views", "t-vs-summary", "t() differs from summary()"))
-        for nm, fn in (("S", inv.S), ("I", inv.I), ("R", inv.R)):
-            if nm in names and all(isinstance(x, str) for x in names):
-                if [int(x) for x in fn()] != sd[nm]:
-                    out.append(("views", "%s-vs-summary" % nm, "%s() differs from summary()" % nm))
-    except Exception as e:
-        out.append(("views", "accessor-raises", "accessor raised %s: %s" % (type(e).__name__, e)))
-    if out:
-        return out
-    # summary over a node subset
-    if len(labels) >= 2:
-        k = rng.randint(1, len(labels))
+    # a seeded sequence of calls on the SAME object (summary over everything,
+    # summary over a node subset, the accessors): every answer is checked, so a
+    # call that silently changes what a later call returns is caught
+    def check_accessors():
+        try:
+            if [float(x) for x in inv.t()] != st:
+                return ("views", "t-vs-summary", "t() differs from summary()")
+            for nm, fn in (("S", inv.S), ("I", inv.I), ("R", inv.R)):
+                if nm in names and all(isinstance(x, str) for x in names):
+                    if [int(x) for x in fn()] != sd[nm]:
+                        return ("views", "%s-vs-summary" % nm, "%s() differs from summary() (and from the arrays of the same draws)" % nm)
+        except Exception as e:
+            return ("views", "accessor-raises", "accessor raised %s: %s" % (type(e).__name__, e))
+        return None
+
+    def check_full_summary():
+        try:
+            xt, xd = inv.summary()
+            xt = [float(x) for x in xt]
+            xd = {kk: [int(x) for x in v] for kk, v in xd.items()}
+        except Exception as e:
+            return ("summary", "summary-raises", "summary() raised %s: %s" % (type(e).__name__, e))
+        if xt != st or any(xd.get(nm) != sd.get(nm) for nm in names):
+            return ("views", "summary-changes-between-calls", "summary() now returns t=%r %r, first call returned t=%r %r"
+                    % (xt, {str(a): b for a, b in xd.items()}, st, {str(a): b for a, b in sd.items()}))
+        return None
+
+    def check_subset():
+        if len(labels) < 2:
+            return None
+        k = rng.randint(1, len(labels) - 1)
         idx = sorted(rng.sample(range(len(labels)), k))
         sub = [labels[i] for i in idx]
         try:
@@ -263,12 +279,22 @@ def two_views(case, arrays_value, inv, labels, rng):
             xd = {kk: [int(x) for x in v] for kk, v in xd.items()}
             wt, wc = summary_from_histories([hists[i] for i in idx], names)
             if xt != wt or any(xd.get(nm) != wc[nm] for nm in names):
-                out.append(("views", "summary-subset", "summary(%r): t=%r %r, recomputed t=%r %r"
-                            % (sub, xt, {str(a): b for a, b in xd.items()}, wt, {str(a): b for a, b in wc.items()})))
+                return ("views", "summary-subset", "summary(%r): t=%r %r, recomputed t=%r %r"
+                        % (sub, xt, {str(a): b for a, b in xd.items()}, wt, {str(a): b for a, b in wc.items()}))
         except Exception as e:
-            out.append(("views", "summary-subset-raises", "summary(nodelist) raised %s: %s" % (type(e).__name__, e)))
-    if out:
-        return out
+            return ("views", "summary-subset-raises", "summary(nodelist) raised %s: %s" % (type(e).__name__, e))
+        return None
+
+    ops = [check_accessors, check_subset, check_accessors, check_full_summary]
+    extra = [check_accessors, check_subset, check_full_summary]
+    for _ in range(4):
+        ops.append(rng.choice(extra))
+    ops.append(check_accessors)
+    for op in ops:
+        bad = op()
+        if bad:
+            out.append((bad[0], bad[1], bad[2] + "  [call sequence on one object: %s]" % ", ".join(o.__name__[6:] for o in ops)))
+            return out
     # point queries
     tmin = case["tmin"]
     evt = sorted({x for (ts, ss) in hists for x in ts})
